@@ -138,6 +138,9 @@ pub struct Cluster {
     pub system_page_rows: usize,
     /// System-table reads may be answered with empty non-final pages (legal in CQL).
     pub system_empty_pages: bool,
+    /// One-shot: the n-th next request for a LATER page of system.peers (one that carries
+    /// a paging state) is answered by a connection reset instead of the page.
+    pub reset_on_peers_page: Option<u32>,
     pub schema_version: [u8; 16],
     /// Every statement id ever handed out (observer's knowledge, independent of eviction).
     pub all_ids: BTreeMap<Vec<u8>, String>,
@@ -170,6 +173,7 @@ impl Cluster {
             think_max: 500_000,
             system_page_rows: 0,
             system_empty_pages: false,
+            reset_on_peers_page: None,
             schema_version: [7u8; 16],
             all_ids: BTreeMap::new(),
         }
@@ -1096,6 +1100,19 @@ fn system_query(
         w.probe("system_query_failed");
         w.respond_error(conn, rq.stream, err::SERVER_ERROR, "metadata subsystem unavailable", &[], delay);
         return;
+    }
+    if params.paging_state.is_some() && text.to_ascii_lowercase().contains("from system.peers") {
+        if let Some(n) = w.cluster.reset_on_peers_page {
+            if n == 0 {
+                w.cluster.reset_on_peers_page = None;
+                w.fault(Fault::Rst);
+                w.probe("reset_instead_of_later_peers_page");
+                w.log(&format!("reset_instead_of_peers_page conn={conn}"));
+                w.srv_close_now(conn, true);
+                return;
+            }
+            w.cluster.reset_on_peers_page = Some(n - 1);
+        }
     }
     let (cols, rows) = match system_table(w, rq.node, text) {
         Ok(x) => x,
